@@ -642,15 +642,51 @@ func CondEdges(fn *ssa.Function, re string, branch bool) *Set {
 		if !ok {
 			continue
 		}
-		if r.MatchString(Desc(iff.Cond, 6)) {
-			if branch {
-				s.AddE(Edge{b, 0})
-			} else {
-				s.AddE(Edge{b, 1})
+		// the condition may be written in an equivalent polarity / operand order (`a != b` with the branches
+		// swapped, `b == a`, `!x`): every equivalent form is matched, with the edge flipped for negated forms
+		for _, v := range condVariants(iff.Cond) {
+			if r.MatchString(v.desc) {
+				if branch != v.flip {
+					s.AddE(Edge{b, 0})
+				} else {
+					s.AddE(Edge{b, 1})
+				}
 			}
 		}
 	}
 	return s
+}
+
+type condVariant struct {
+	desc string
+	flip bool // the variant is the negation of the condition
+}
+
+func condVariants(c ssa.Value) []condVariant {
+	out := []condVariant{{Desc(c, 6), false}}
+	switch x := c.(type) {
+	case *ssa.UnOp:
+		if x.Op == token.NOT {
+			out = append(out, condVariant{Desc(x.X, 6), true})
+		}
+	case *ssa.BinOp:
+		mirror := map[token.Token]token.Token{token.EQL: token.EQL, token.NEQ: token.NEQ, token.LSS: token.GTR, token.GTR: token.LSS, token.LEQ: token.GEQ, token.GEQ: token.LEQ}
+		neg := map[token.Token]token.Token{token.EQL: token.NEQ, token.NEQ: token.EQL, token.LSS: token.GEQ, token.GEQ: token.LSS, token.GTR: token.LEQ, token.LEQ: token.GTR}
+		m, ok := mirror[x.Op]
+		if !ok {
+			break
+		}
+		if b, isB := x.X.Type().Underlying().(*types.Basic); isB && b.Info()&types.IsFloat != 0 && x.Op != token.EQL && x.Op != token.NEQ {
+			break // ordered float comparisons are not negated by flipping the operator (NaN)
+		}
+		xs, ys := descSeen(x.X, 5, map[ssa.Value]bool{}), descSeen(x.Y, 5, map[ssa.Value]bool{})
+		form := func(a string, op token.Token, b string) string { return "(" + a + " " + op.String() + " " + b + ")" }
+		out = append(out,
+			condVariant{form(ys, m, xs), false},
+			condVariant{form(xs, neg[x.Op], ys), true},
+			condVariant{form(ys, mirror[neg[x.Op]], xs), true})
+	}
+	return out
 }
 
 // Conds lists the descriptors of all If conditions of fn (diagnostics).
